@@ -109,6 +109,17 @@ class MetadataPdu(AbstractFileDirectiveBase):
         )
 
     @property
+    def file_flag(self):
+        return self.pdu_file_directive.file_flag
+
+    @file_flag.setter
+    def file_flag(self, file_flag: LargeFileFlag):
+        """Set the file size. This changes the length of the packet when packed as well
+        which is handled by this function"""
+        self.pdu_file_directive.file_flag = file_flag
+        self._calculate_directive_field_len()
+
+    @property
     def options(self) -> Optional[List[CfdpTlv]]:
         return self._options
 
